@@ -1,0 +1,85 @@
+/*
+ * Verification hooks (compiled in only with -DUPIPE_VERIF).
+ *
+ * Without UPIPE_VERIF every macro below expands to nothing and the headers
+ * that use them are unchanged.
+ */
+
+/** @file
+ * @short Upipe verification hooks: scheduling points and reference tracing
+ */
+
+#ifndef _UPIPE_UVERIF_H_
+/** @hidden */
+#define _UPIPE_UVERIF_H_
+#ifdef __cplusplus
+extern "C" {
+#endif
+
+#ifdef UPIPE_VERIF
+
+/** @This enumerates the kinds of scheduling points. */
+enum uverif_kind {
+    /** atomic store */
+    UVERIF_STORE = 1,
+    /** atomic load */
+    UVERIF_LOAD = 2,
+    /** atomic compare and exchange */
+    UVERIF_CAS = 3,
+    /** atomic fetch and add */
+    UVERIF_FADD = 4,
+    /** atomic fetch and sub */
+    UVERIF_FSUB = 5,
+    /** plain (unsynchronised) read of a shared location */
+    UVERIF_PLAIN_R = 10,
+    /** plain (unsynchronised) write of a shared location */
+    UVERIF_PLAIN_W = 11,
+    /** event descriptor read (clears readability) */
+    UVERIF_EVFD_R = 20,
+    /** event descriptor write (sets readability) */
+    UVERIF_EVFD_W = 21,
+    /** event descriptor close */
+    UVERIF_EVFD_CLOSE = 22
+};
+
+/** @This enumerates the reference counting events. */
+enum uverif_ref {
+    /** reference taken; value is the counter before the operation */
+    UVERIF_REF_USE = 1,
+    /** reference released; value is the counter before the operation */
+    UVERIF_REF_RELEASE = 2,
+    /** destructor about to be called */
+    UVERIF_REF_DESTROY = 3,
+    /** refcount initialised */
+    UVERIF_REF_INIT = 4
+};
+
+/** scheduling point call-back, called before the operation (weak: a harness
+ * may define and set it, otherwise it is NULL and nothing happens) */
+__attribute__((weak)) void (*upipe_verif_yield_cb)(int kind, const void *obj);
+/** reference tracing call-back */
+__attribute__((weak)) void (*upipe_verif_ref_cb)(int ev, const void *refcount,
+                                                 unsigned int value);
+
+#define UPIPE_VERIF_YIELD(kind, obj)                                        \
+    do {                                                                    \
+        if (upipe_verif_yield_cb != 0)                                      \
+            upipe_verif_yield_cb((kind), (const void *)(obj));              \
+    } while (0)
+#define UPIPE_VERIF_REF(ev, refcount, value)                                \
+    do {                                                                    \
+        if (upipe_verif_ref_cb != 0)                                        \
+            upipe_verif_ref_cb((ev), (const void *)(refcount), (value));    \
+    } while (0)
+
+#else
+
+#define UPIPE_VERIF_YIELD(kind, obj) do { } while (0)
+#define UPIPE_VERIF_REF(ev, refcount, value) do { } while (0)
+
+#endif
+
+#ifdef __cplusplus
+}
+#endif
+#endif
